@@ -71,6 +71,22 @@ def ion_constructs(ctx, cfgt):
     return out
 
 
+def twin_ion_constructs(ctx):
+    """Two ions of the same name in one chain (same printed label) in free spots next to the most buried titratable
+    groups of a real structure: each ion's determinant must respect the bound for ONE ion."""
+    out = []
+    for src in (["1FTJ-Chain-A"] if not ctx.thorough() else ["1FTJ-Chain-A", "3SGB", "1HPX"]):
+        lines = [ln for ln in C.body(C.test_pdb_text(src)) if C.is_atom(ln) or ln.startswith("TER")]
+        for k, (n, xyz, lab) in enumerate(C.buried_anchors(lines, top=3 if ctx.thorough() else 2)):
+            spots = C.free_spots(lines, xyz, count=2)
+            if len(spots) < 2:
+                continue
+            for ion in (["NA", "ZN"] if ctx.thorough() else ["NA"]):
+                extra = [C.ion_line(ion, spots[0], chain="A", num=901, serial=9001), C.ion_line(ion, spots[1], chain="A", num=902, serial=9002)]
+                out.append((f"{src}+2x{ion}@{lab}", C.join(lines + extra), []))
+    return out
+
+
 def like_charge_constructs(ctx):
     """Two copies of a fragment facing each other: acid-acid and base-base pairs at short range."""
     out = []
@@ -168,7 +184,7 @@ def run(ctx):
     for k, (c, msg) in sorted(bad.items()):
         ctx.violation(k, f"{c}: {msg}", {"case": c})
     # ---- T -----------------------------------------------------------------------------
-    cases = runbank.base_cases(ctx) + ion_constructs(ctx, cfgt) + like_charge_constructs(ctx) + runbank.kit_cases(ctx, every=1 if ctx.thorough() else 5)
+    cases = runbank.base_cases(ctx) + ion_constructs(ctx, cfgt) + twin_ion_constructs(ctx) + like_charge_constructs(ctx) + runbank.kit_cases(ctx, every=1 if ctx.thorough() else 5)
     # parameter files that change the desolvation model but none of the configured bounds
     from . import c02
     variants = {"allow005": {"desolvationAllowance": 0.05}, "allow015": {"desolvationAllowance": 0.15},
